@@ -238,6 +238,10 @@ def apply_op(o, case):
 
 def run(case):
     bs = bitstring_module()
+    from vf.common import expand_bits
+    if isinstance(case['args']['content'], dict):
+        case = dict(case, args=dict(case['args'], content=expand_bits(case['args']['content'])))
+        case['args']['same'] = '1' * len(case['args']['content'])
     content = case['args']['content']
     with files.TempDir() as tmp:
         # routes that select bits by position are built under msb0 (their lsb0 behaviour is C12's business); everything else is
@@ -270,6 +274,23 @@ def sub(name, routes, quick, thorough, mutate=False):
     return Sub('C08.' + name, run, strategy=lambda tier: case_st(tier, routes, mutate), examples={'quick': quick, 'thorough': thorough}, ambient=('bytealigned',))
 
 
+@st.composite
+def big_case_st(draw, tier):
+    from vf.common import big_bits_st
+    c = draw(case_st(tier, files.FILE_ROUTES, False))
+    c['args']['content'] = draw(big_bits_st())
+    n = c['args']['content']['n']
+    c['args']['i'] = draw(st.sampled_from([0, -1, n - 1, -n, n, -2, n // 2]))
+    c['args']['start'], c['args']['end'] = None, None
+    cheap = ['len', 'bool', 'tobytes', 'hash', 'eq_twin', 'count', 'getitem', 'add', 'radd', 'add_self', 'invert', 'and', 'xor', 'lshift', 'rshift', 'to_BitArray', 'to_BitStream', 'to_Bits',
+             'copy', 'tofile', 'length_prop', 'uint', 'all', 'all_pos', 'startswith', 'endswith', 'find', 'rfind', 'contains', 'slice', 'mul', 'join_into', 'kw_bits', 'read_int', 'bytes_builtin']
+    c['op'] = draw(st.sampled_from(cheap))
+    if c['op'] == 'read_int' and c['cls'] not in STREAMS:
+        c['op'] = 'len'
+    c['args']['s2'] = draw(st.sampled_from([None, -1, 8, 4099]))
+    return c
+
+
 FILE_LIMITED = ['file_length_limited', 'file_length_limited_off0', 'file_len_whole']
 FILE_OFFSET = ['file_offset', 'file_offset_aligned', 'file_offset_nolen', 'file_handle_offset']
 FILE_FULL = ['file_name_full', 'file_handle_full', 'pathlib_name']
@@ -280,4 +301,5 @@ SUBCHECKS = [
     sub('file_offset', FILE_OFFSET, 5000, 80000),
     sub('file_length_limited', FILE_LIMITED, 6000, 100000),
     sub('mutable_from_route', ALL_ROUTES, 8000, 120000, mutate=True),
+    Sub('C08.file_large', run, strategy=big_case_st, examples={'quick': 400, 'thorough': 6000}),
 ]
